@@ -40,6 +40,19 @@ MustDrop(o, b) == \/ b[1] = TUnknown /\ "skipUnknown" \in o
                   \/ b[1] = TComment /\ "skipComments" \in o
                   \/ b[1] = TEof /\ "skipEof" \in o
 MayDrop(o, b) == MustDrop(o, b) \/ (b[1] = TWhitespace /\ "skipWhitespaces" \in o)
+\* the characters that a tokenizer configuration hands to a quote state
+QuoteChars(kind) == CASE kind \in {"csv"} -> {34}
+                      [] kind = "csv-wide" -> {34, 171}
+                      [] kind = "generic-quotes" -> {34, 39, 171, 8220}
+                      [] kind = "generic-2quotes" -> {34, 39, 96}
+                      [] OTHER -> {34, 39}
+\* "Tokens read by the quote state carry their decoded value": what type a quote state gives a token it has read is its own
+\* business (Quoted; Word for a quoted identifier; a state may type an unterminated literal differently). A token that the
+\* option-free stream starts with a quote character and that is not typed as a quote token above may therefore appear decoded
+\* or untouched when the option is on.
+MayDecode(o, kind, b) == "decodeStrings" \in o /\ ~IsQuoteTok(kind, b) /\ b[2] # <<>> /\ b[2][1] \in QuoteChars(kind)
+                         /\ b[1] \notin {TWhitespace, TInteger, TFloat, THex, TEof}
+DecodedAlt(o, kind, b) == <<b[1], Decode(QState(kind), b[2], b[2][1])>>
 \* <<type, value>> of a kept token after the enabled rewrites
 Rewrite(o, kind, b) ==
   \* (decoding is done by the tokenizer's own quote state, also for a token that a second quote state of another kind has read)
@@ -67,7 +80,8 @@ Aligned(o, kind, input, base, out, withPos) ==
                  lc2 == IF withPos THEN LCAdv(input, lc, off, off2) ELSE lc
                  pos == IF b[1] = TEof THEN <<lc[1], lc[2] + 1>> ELSE LCAdv(input, lc, off, off + 1)
                  match == /\ j <= Len(out)
-                          /\ <<out[j][1], out[j][2]>> = Rewrite(o, kind, b)
+                          /\ (<<out[j][1], out[j][2]>> = Rewrite(o, kind, b)
+                              \/ (MayDecode(o, kind, b) /\ <<out[j][1], out[j][2]>> = DecodedAlt(o, kind, b)))
                           /\ (withPos => <<out[j][3], out[j][4]>> = pos)
              \* Deterministic (one pass): a token that must go is dropped; otherwise it is kept when the next output token
              \* is its rewrite, else dropped if an option allows that.  This decides the existence of an alignment: the only
